@@ -1,11 +1,64 @@
-(* Property C14 — statements; see DESIGN.md §6 C14.  The model-level refinement
-   theorems are being proved in Proofs/TapeProofs.v / Proofs/AcceptProofs.v;
-   until they are in, this file carries the full statement as a definition,
-   the tie obligations the statement rests on, and the property is decided on
-   every run by the correspondence described in DESIGN.md. *)
-From SJ Require Import Model.Base Model.RefTables Spec.Json Spec.EditSpec Model.Driver Model.Tape Model.Iter Model.Walk Model.Edit Model.WF Tie.GoTablesTie.
+(* Property C14 — deletion removes exactly the selected members and all APIs
+   agree after it.  Theorems about Model/Edit.v's DeleteElems loops against the
+   abstract deletion on documents. *)
+From SJ Require Import Model.Base Model.RefTables Spec.Json Spec.EditSpec Model.Driver Model.Tape Model.Iter Model.Walk Model.Edit Model.WF
+     Proofs.TapeBase Proofs.TapeSeg Proofs.TapePath Proofs.TapeEdit Proofs.TapeDelete Proofs.TapeProofs Tie.GoTablesTie.
 Open Scope N_scope.
+
+(* Array.DeleteElems: one callback per live element, in order; the new tape
+   denotes the document with exactly the selected elements removed *)
+Theorem C14_array_delete_refines : forall (strict adj : bool) pj a decide pre sub post p ds l,
+  pj_tape pj = pre ++ sub ++ post ->
+  val_seg (pj_msg pj) (pj_strings pj) strict adj (nlen pre) sub (DArr l) ->
+  index_path (pj_msg pj) (pj_strings pj) strict adj (pj_tape pj) (nlen pre) p ->
+  denote (pj_msg pj) (pj_strings pj) (pj_tape pj) = Some ds ->
+  c_off a = (Z.of_N (nlen pre) + 1)%Z ->
+  c_len a = (Z.of_N (nlen pre) + Z.of_nat (length sub))%Z ->
+  exists sub2,
+    arr_delete pj a decide = Ok (with_tape pj (pre ++ sub2 ++ post), length l) /\
+    length sub2 = length sub /\
+    val_seg (pj_msg pj) (pj_strings pj) strict adj (nlen pre) sub2 (DArr (abs_del_elems l decide)) /\
+    denote (pj_msg pj) (pj_strings pj) (pre ++ sub2 ++ post) = upd_docs p (abs_delete_arr decide) ds /\
+    (exists ds2, upd_docs p (abs_delete_arr decide) ds = Some ds2 /\
+                 roots_seg (pj_msg pj) (pj_strings pj) strict adj 0 (pre ++ sub2 ++ post) ds2).
+Proof. exact arr_delete_refines. Qed.
+
+(* Object.DeleteElems with optional key filter and optional callback: the
+   callbacks made are exactly those of the abstract visit, the result denotes
+   the document minus exactly the members for which deletion was requested *)
+Theorem C14_object_delete_refines : forall (strict adj : bool) pj o only decide pre sub post p ds l,
+  N.of_nat (length (pj_msg pj)) < two64 -> N.of_nat (length (pj_strings pj)) < two64 ->
+  pj_tape pj = pre ++ sub ++ post ->
+  val_seg (pj_msg pj) (pj_strings pj) strict adj (nlen pre) sub (DObj l) ->
+  index_path (pj_msg pj) (pj_strings pj) strict adj (pj_tape pj) (nlen pre) p ->
+  denote (pj_msg pj) (pj_strings pj) (pj_tape pj) = Some ds ->
+  c_off o = (Z.of_N (nlen pre) + 1)%Z ->
+  c_len o = (Z.of_N (nlen pre) + Z.of_nat (length sub))%Z ->
+  let R := abs_del_members l only (distinct_keys only []) 0 decide in
+  exists sub2,
+    obj_delete pj o only decide = Ok (with_tape pj (pre ++ sub2 ++ post), snd R) /\
+    length sub2 = length sub /\
+    val_seg (pj_msg pj) (pj_strings pj) strict adj (nlen pre) sub2 (DObj (fst R)) /\
+    denote (pj_msg pj) (pj_strings pj) (pre ++ sub2 ++ post) = upd_docs p (abs_delete_obj only decide) ds /\
+    (exists ds2, upd_docs p (abs_delete_obj only decide) ds = Some ds2 /\
+                 roots_seg (pj_msg pj) (pj_strings pj) strict adj 0 (pre ++ sub2 ++ post) ds2).
+Proof. exact obj_delete_refines. Qed.
+
+(* plain traversal through the modelled iterator API (Advance, Root, Array.Iter,
+   NextElementBytes, typed accessors) returns the denotation on every tape
+   reachable by deletions and replacements: no survivor skipped, nothing
+   resurrected, gaps read correctly *)
+Theorem C14_traversal_after_deletions : forall pj ds,
+  N.of_nat (length (pj_msg pj)) < two64 -> N.of_nat (length (pj_strings pj)) < two64 ->
+  tape_ok pj -> denote (pj_msg pj) (pj_strings pj) (pj_tape pj) = Some ds -> walk_doc pj = Ok ds.
+Proof. exact walk_doc_tape_ok. Qed.
+
+Definition C14_array_delete_preserves_wf := arr_delete_preserves_wf.
+Definition C14_object_delete_preserves_wf := obj_delete_preserves_wf.
 
 Theorem C14_tie_tags : gen.Consts.gen_TagNop = TagNop /\ gen.Consts.gen_TagObjectEnd = TagObjectEnd /\ gen.Consts.gen_TagArrayEnd = TagArrayEnd.
 Proof. destruct tie_tags as (_ & _ & _ & _ & _ & _ & _ & _ & I & _ & K & _ & M & _). repeat split; assumption. Qed.
-Print Assumptions C14_tie_tags.
+
+Print Assumptions C14_array_delete_refines.
+Print Assumptions C14_object_delete_refines.
+Print Assumptions C14_traversal_after_deletions.
